@@ -47,12 +47,12 @@ def plain_task(name, v):
     return TaskD(name, RET(v))
 
 
-def raising_task(name, tag, after_items=0, kind=0, v=0):
-    return TaskD(name, SEQ(*([Y(0, ITEM(kind, v + j)) for j in range(after_items)] + [RAISE(tag)])))
+def raising_task(name, tag, after_items=0, kind=0, v=0, base=False):
+    return TaskD(name, SEQ(*([Y(0, ITEM(kind, v + j)) for j in range(after_items)] + [RAISE(tag, base)])))
 
 
 OK_MENU = 8
-FAULT_MENU = 18
+FAULT_MENU = 21
 
 
 def menu_slot(sel, i, v, pre=None):
@@ -94,6 +94,13 @@ def menu_slot(sel, i, v, pre=None):
         return TASK(chain("c%d" % i, 2, 1, v))
     if sel == 17:
         return ITEM(1, v, "cancelself")
+    # ---- failures that are not Exceptions (BaseException subclasses, like KeyboardInterrupt or a cancellation)
+    if sel == 18:
+        return ITEM(0, v, "err_base")
+    if sel == 19:
+        return ITEM(1, v, "flushraise_base")
+    if sel == 20:
+        return TASK(raising_task("rb%d" % i, i, after_items=1, kind=0, v=v, base=True))
     raise AssertionError(sel)
 
 
